@@ -56,4 +56,55 @@ pub(crate) mod verif_hm {
         kani::cover!(present && cur == t);
         kani::cover!(!present);
     }
+
+    /// extract_args, positional part (no attachments): index i >= 0 selects args[i], a negative index counts from the
+    /// end, anything out of range or a missing argument list yields None; never panics for any isize index and 0..3 arguments
+    #[kani::proof]
+    #[kani::unwind(5)]
+    #[kani::stub(crate::core::system_metric::get_total_memory_size, vs::any_total_memory)]
+    #[kani::stub(std::backtrace::Backtrace::capture, std::backtrace::Backtrace::disabled)]
+    #[kani::stub(anyhow::Error::msg, vs::no_error_expected)]
+    #[kani::stub(std::collections::hash_map::RandomState::new, stub_random_state)]
+    #[kani::stub(alloc::fmt::format, fmt_stub)]
+    fn hm_extract_list_args() {
+        let idx: isize = kani::any();
+        let mut rule = (*mk_rule(MetricType::QPS, ControlStrategy::Reject, 1, 0, 1, 0)).clone();
+        rule.param_index = idx;
+        let rule = Arc::new(rule);
+        std::mem::forget(rule.clone());
+        let metric = Arc::new(ParamsMetric::<MapCounter> {
+            rule_time_counter: MapCounter::with_capacity(0),
+            rule_token_counter: MapCounter::with_capacity(0),
+            concurrency_counter: MapCounter::with_capacity(0),
+        });
+        std::mem::forget(metric.clone());
+        let ctl = Controller::<MapCounter>::new_with_metric(rule, metric);
+        let n: usize = kani::any();
+        kani::assume(n <= 3);
+        let has_args: bool = kani::any();
+        let mut ctx = crate::core::base::context::verif_ctx::mk_ctx("r", false, 1, 0, None);
+        if has_args {
+            let mut v: Vec<String> = Vec::with_capacity(3);
+            if n > 0 { v.push(String::from("a")); }
+            if n > 1 { v.push(String::from("b")); }
+            if n > 2 { v.push(String::from("c")); }
+            let mut input = crate::base::SentinelInput::new(1, 0);
+            input.set_args(v);
+            ctx.set_input(input);
+        }
+        let r = ctl.extract_args(&ctx);
+        let want: Option<usize> = if !has_args { None } else if idx >= 0 {
+            if (idx as usize) < n { Some(idx as usize) } else { None }
+        } else if idx >= -(n as isize) { Some((idx + n as isize) as usize) } else { None };
+        match (r, want) {
+            (None, None) => {}
+            (Some(s), Some(i)) => assert!(s.as_bytes()[0] == b'a' + i as u8),
+            _ => assert!(false, "wrong argument selected"),
+        }
+        std::mem::forget(ctx);
+        std::mem::forget(ctl);
+        kani::cover!(has_args && idx == -1 && n == 3);
+        kani::cover!(has_args && idx == -4 && n == 3);
+        kani::cover!(has_args && idx == 2 && n == 3);
+    }
 }
